@@ -32,6 +32,9 @@ def run(chk):
     (work / "b.utb").write_text("include shared.uti\nspace \\s 0\nletter a 3\nletter b 36\nletter c 1\n"
                                 "noback correct \"ca\" \"ac\"\nnoback pass2 @3-36 @36-3\nnoback pass3 @1-1 @1\nnofor pass2 @36-3 @3-36\nnofor correct \"ac\" \"ca\"\n")
     (work / "bad.utb").write_text("space \\s 0\nletter a 1\nthisisnotanopcode x 1\n")
+    # compiles, but the finalisation of the table rejects it (base rules in a circle): cached, and rejected again on every use
+    (work / "fin.utb").write_text("space \\s 0\nletter a 1\nlowercase x 1346\nlowercase y 13456\nbase uppercase x y\nbase uppercase y x\n")
+    FIN = str(work / "fin.utb")
     A = str(work / "a.utb")
     APFX = A + "," + str(work / "shared.uti")        # A is a prefix of this list string; shares a file with B
     B = str(work / "b.utb")
@@ -43,6 +46,7 @@ def run(chk):
         "useB": "Y %s ;; %s" % (B, trans.case_line("T", 4, inp, 20)),
         "useApfx": "Y %s ;; %s" % (APFX, trans.case_line("T", 4, inp + [100], 20)),
         "useBad": "Y %s ;; %s" % (BAD, trans.case_line("T", 4, inp, 20)),
+        "useFin": "Y %s ;; %s" % (FIN, trans.case_line("T", 4, inp, 20)),
         "addA": "K %s | always ab 123456" % A,
         "addAbad": "K %s | always ab 9-10-z" % A,
         "addAdisp": "K %s | display z 1346" % A,
@@ -52,7 +56,7 @@ def run(chk):
         "free": "F",
         "getA": "G " + A,
     }
-    name_of = {"useA": A, "useB": B, "useApfx": APFX, "useBad": BAD, "addA": A, "addAbad": A, "addAdisp": A, "backA": A, "backB": B, "hyph": HY, "getA": A}
+    name_of = {"useA": A, "useB": B, "useApfx": APFX, "useBad": BAD, "useFin": FIN, "addA": A, "addAbad": A, "addAdisp": A, "backA": A, "backB": B, "hyph": HY, "getA": A}
     keys = list(ops)
     seqs = []
     maxlen = 3 if quick else 4
@@ -152,7 +156,7 @@ def run(chk):
                 chk.sample(dict(sequence=seq), cap=3)
     shutil.rmtree(work, ignore_errors=True)
     chk.cov["exhaustive_up_to_length"] = maxlen
-    chk.cov["rule"] = ("all sequences up to length %d over 12 operations {use A, use B (multipass, both directions), use list A+shared (A's name is a prefix, shares a file with B), "
+    chk.cov["rule"] = ("all sequences up to length %d over 13 operations {use A, use B (multipass, both directions), use a list that compiles but is rejected by the finalisation, use list A+shared (A's name is a prefix, shares a file with B), "
                        "use a list that does not compile, add a valid / an invalid / a display rule to A, back-translate with A, hyphenate, lou_getTable(A), "
                        "lou_free} plus random sequences of 5-40; observed: files opened per step (hook), pointer identity, lou_compileString "
                        "results, every result vs a fresh process with the same accepted additions, LeakSanitizer at exit; distinct = sequence" % maxlen)
